@@ -539,3 +539,34 @@ def check_getters(R, prefixes, instance="accessor-fidelity"):
                    "%s no longer returns %s (now: %s): every guard and computation that reads the state through this accessor now reads something else" % (name.split("::", 1)[1], ".".join(f.split(".")[1] for f in fields), ".".join(t.fields) or t.describe()[:40]),
                    where=b.where(), instance=instance)
     return n
+
+
+def select_minmax(body, op):
+    """Recognise a minimum / maximum however it is written: `a.min(b)` / `Ord::min(a, b)`, or the equivalent conditional
+    `if a <= b { a } else { b }` (any comparison spelling, either branch order, pure operands re-evaluated).
+    Returns ("min"|"max", Trace of a, Trace of b) or None."""
+    from utpsa.bounds import _select_minmax
+    from utpsa.prov import Trace, TRANSPARENT
+    t = trace(body, op)
+    if t.fields:
+        return None
+    if t.kind == "call" and call_matches(t.root[1], ("Ord::min", "Ord::max")) and len(t.root[1].args) == 2:
+        return ("min" if call_matches(t.root[1], ("Ord::min",)) else "max", trace(body, t.root[1].args[0]), trace(body, t.root[1].args[1]))
+    if t.kind != "multi":
+        return None
+    sel = _select_minmax(body, t)
+    if sel is None:
+        return None
+
+    def as_trace(v):
+        if isinstance(v, Term):
+            if (v.callee in TRANSPARENT or v.resolved in TRANSPARENT) and v.args:
+                return trace(body, v.args[0])
+            return Trace(("call", v), [], [], [v], [])
+        return trace(body, v)
+    ta, tb = as_trace(sel[1]), as_trace(sel[2])
+    # where the two values are read (the conditional assignments themselves), for ordering arguments
+    d1, d2 = list(t.root[3])
+    ta.steps = list(ta.steps) + [d1]
+    tb.steps = list(tb.steps) + [d2]
+    return (sel[0], ta, tb)
